@@ -563,6 +563,16 @@ class List(list, base.Symbolic, pg_typing.CustomTyping):
     if isinstance(index, slice):
       start, stop, step = self._parse_slice(index)
       replacements = [self._formalized_value(i, v) for i, v in enumerate(value)]
+      # NOTE: the values are formalized up front so that an invalid one is
+      # refused before anything changes, but their positions are only decided
+      # below: undo the provisional adoption, or a node would be taken for the
+      # member of another slot and a copy stored in its place, leaving the
+      # node itself with a parent that does not hold it.
+      for r in replacements:
+        if isinstance(r, base.TopologyAware) and r.sym_parent is self and not any(
+            v is r for v in self.sym_values()):
+          r.sym_setparent(None)
+          r.sym_setpath(utils.KeyPath())
       extended = step != 1
       if step < 0:
         # Use the equivalent forward slice.
